@@ -3,7 +3,7 @@ import ast
 
 from .prog import norm, walk_body, walk_local, Func
 from .calls import calls_of
-from .common import const_of
+from .common import const_of, stamper
 
 
 class Read:
@@ -106,13 +106,15 @@ def reads_on_names(func, names, objlabel, calls, depth=0, via=()):
                 continue
             for t in calls.callee(func, n):
                 if t.kind == "builtin":
-                    if t.name in ("len", "iter", "list", "dict", "set", "sorted", "tuple", "enumerate", "zip", "any", "all",
-                                  "map", "filter", "next", "reversed", "sum", "max", "min", "frozenset"):
+                    # only a *positional* argument is walked by these; `dict(schema=_schema)` stores the object under a key
+                    pos_hit = any(isinstance(a, ast.Name) and a.id in names for a in n.args)
+                    if pos_hit and t.name in ("len", "iter", "list", "dict", "set", "sorted", "tuple", "enumerate", "zip", "any", "all",
+                                              "map", "filter", "next", "reversed", "sum", "max", "min", "frozenset"):
                         out.append(Read(func, "len" if t.name == "len" else "iter", None, n, objlabel, False, via))
                     # isinstance/repr/str/getattr: not key reads
                 elif t.kind == "func" and t.func is not None and depth < 4:
                     g = t.func
-                    if g.name in ("_set", "__init__"):
+                    if g.name == "__init__" or g is stamper(calls.prog):
                         continue
                     if g.cls is not None and g.cls is calls.V:
                         continue    # descent: the object becomes the schema of a recursive validation
@@ -194,7 +196,7 @@ def child_reads(prog, func, value_names=None, depth=0, via=()):
             if not isinstance(n, ast.Call):
                 continue
             for t in calls.callee(func, n):
-                if t.kind != "func" or t.func is None or t.func.cls is calls.V or t.func.name in ("_set", "__init__"):
+                if t.kind != "func" or t.func is None or t.func.cls is calls.V or t.func.name == "__init__" or t.func is stamper(calls.prog):
                     continue
                 g = t.func
                 off = 1 if (g.cls is not None and isinstance(n.func, ast.Attribute)) else 0
